@@ -251,15 +251,52 @@ def gen_history(seed, mode, thorough, hashseed):
             ops.append(["options", rng.choice(["chdir", "get"])])
     pending = []  # (slot, dname)
     nslot = 0
+    # the simulator's estimate of UFL's global counters (Coefficient, Constant, Mesh), used for
+    # counter-boundary targeting: place a power-of-ten boundary *inside* a request's own objects
+    cnt = {"coefficient": 0, "constant": 0, "mesh": 0}
+    CRE = {"mesh": (0, 0, 1), "mesh3": (0, 0, 1), "space": (0, 0, 1), "coefficient": (1, 0, 1),
+           "constant": (0, 1, 1), "argument": (0, 0, 1), "element": (0, 0, 0), "quadelement": (0, 0, 0)}
+
+    def account(kind, n):
+        a, b, c = CRE[kind]
+        cnt["coefficient"] += a * n
+        cnt["constant"] += b * n
+        cnt["mesh"] += c * n
+
+    def own(dname):
+        src = "\n".join(R.get(dname).stmts)
+        return {"coefficient": src.count("ufl.Coefficient("), "constant": src.count("ufl.Constant("),
+                "mesh": src.count("ufl.Mesh(")}
+
+    for op in ops:
+        if op[0] == "create":
+            account(op[1], op[2])
     for d in ds:
         req = R.get(d)
         slot = f"s{nslot}"
         nslot += 1
+        o = own(d)
+        if rng.random() < 0.3:
+            kinds = [k for k in ("coefficient", "constant") if o[k] >= 2]
+            if kinds:
+                k = rng.choice(kinds)
+                j = rng.randrange(0, o[k] - 1)
+                for B in (10, 100, 1000):
+                    fill = (B - 1 - j) - cnt[k]
+                    if fill >= 0:
+                        if fill:
+                            ops.append(["create", k, fill])
+                            account(k, fill)
+                        break
         gaps = []
         for _ in range(rng.choice([0, 0, 1, 2, 3])):
             gaps.append([rng.randrange(0, len(req.stmts)), rng.choice(UNRELATED),
                          rng.choice([1, 1, 2, 5, 8, 9])])
         ops.append(["build", slot, d, gaps])
+        for g in gaps:
+            account(g[1], g[2])
+        for k in cnt:
+            cnt[k] += o[k]
         pending.append((slot, d))
         # observations on some pending slot (not necessarily the newest: interleaves requests)
         for _ in range(rng.choice([2, 3, 4, 6])):
@@ -277,6 +314,8 @@ def gen_history(seed, mode, thorough, hashseed):
                     ops.append(["compile", s, "numba"])
                 elif c < 0.85 and not rq.jit_kwargs:
                     ops.append(["cli", dn, None])
+                    for k, v in own(dn).items():
+                        cnt[k] += v
                 else:
                     ops.append(["jitname", s])
             else:
@@ -292,6 +331,7 @@ def gen_history(seed, mode, thorough, hashseed):
                 pending.append((ns, dn))
             elif c < 0.25:
                 ops.append(["create", rng.choice(UNRELATED), rng.choice([1, 2, 4])])
+                account(ops[-1][1], ops[-1][2])
             elif c < 0.30:
                 ops.append(["gc"])
             elif c < 0.36:
